@@ -49,12 +49,12 @@ Section O.
   Proof. reflexivity. Qed.
 
   Lemma open_do_HI w ts K :
-    HIb d user cs_size w K -> w_err (open_do d ts w) = false ->
+    HIb d user cs_size w K -> ts_ok d w K [] -> w_err (open_do d ts w) = false ->
     HI d user cs_size (open_do d ts w) K [] /\ c_open (w_c (open_do d ts w)) = true /\
     c_in_ts (w_c (open_do d ts w)) = c_in_ts (w_c w) /\ c_enabled (w_c (open_do d ts w)) = c_enabled (w_c w) /\
     w_err w = false.
   Proof.
-    intros (H1 & H2 & H3 & H4 & H5 & H6 & H7 & H8 & H9 & H10) He.
+    intros (H1 & H2 & H3 & H4 & H5 & H6 & H7 & H8 & H9 & H10) [Tb Te] He.
     unfold open_do in *.
     remember (open_reset w) as w1 eqn:W1.
     remember (open_hdr d w1) as w2 eqn:W2.
@@ -65,8 +65,9 @@ Section O.
     rewrite W4 in E4. unfold open_pc in E4. destruct (do_ser_ok _ _ _ _ E4) as (st_pc & Spc & A4).
     fold (open_pc d ts (c_psize (w_c w)) (c_seq (w_c w)) w3) in A4. rewrite <- W4 in A4.
     assert (C3 : w_c w3 = w_c w2 /\ w_or w3 = w_or w2 /\ w_pcargs w3 = w_pcargs w2 /\
-                 obs (w_log w3) = obs (w_log w2) /\ w_err w3 = w_err w2).
-    { rewrite W3. unfold open_mark. destruct (_ && _); up; [|auto]. rewrite obs_app. cbn. rewrite app_nil_r. auto. }
+                 obs (w_log w3) = obs (w_log w2) ++ (if has_tsb d then [ETs 0 ts] else []) /\ w_err w3 = w_err w2).
+    { rewrite W3. unfold open_mark, has_tsb. destruct (_ && _); up; [|rewrite app_nil_r; auto].
+      rewrite obs_app. cbn. auto. }
     destruct C3 as (C3 & O3 & P3 & L3 & E3).
     assert (E2 : w_err w2 = false).
     { rewrite <- E3. unfold after_ser in A4. tauto. }
@@ -118,10 +119,20 @@ Section O.
     destruct A4 as (A4s & A4a & A4v & A4p & _ & _ & A4d & A4q & _ & A4i & A4e & _ & _ & A4o & _ & A4g & A4l & _ & _).
     rewrite Svh in A4v. cbn [app] in A4v.
     split; [|unfold open_fin; up; repeat split; auto].
-    unfold HI, len_ok, open_fin. up. rewrite A4s, A4p, A4a, A4v, A4d, A4q, A4o, A4g, A4l.
+    set (m := if has_tsb d then [ETs 0 ts] else []) in *.
+    assert (M1 : pkts (obs (w_log w) ++ m) = pkts (obs (w_log w)))
+      by (unfold m; destruct (has_tsb d); [apply pkts_ts|rewrite app_nil_r; reflexivity]).
+    assert (M2 : snaps 0 (obs (w_log w) ++ m) = snaps 0 (obs (w_log w)))
+      by (unfold m; destruct (has_tsb d); [apply snaps_ts|rewrite app_nil_r; reflexivity]).
+    assert (M3 : ndo (obs (w_log w) ++ m) = ndo (obs (w_log w)))
+      by (unfold m; destruct (has_tsb d); [apply ndo_ts|rewrite app_nil_r; reflexivity]).
+    unfold HI, len_ok, open_fin, ts_ok. up. rewrite A4s, A4p, A4a, A4v, A4d, A4q, A4o, A4g, A4l, M1, M2, M3.
     repeat split; auto.
     - rewrite R1. exact L1.
-    - exists ts, nh. split; [|rewrite R2; reflexivity].
+    - exists ts, nh. split; [|split; [rewrite R2; reflexivity|]].
+      2:{ rewrite !stamps_of_app. unfold m. split; intros Hh.
+          - rewrite Hh. cbn. rewrite (Tb Hh), app_nil_r. reflexivity.
+          - destruct (has_tsb d); cbn; rewrite app_nil_r; apply Te; exact Hh. }
       unfold hdr_ctx_ok. prj.
       split; [rewrite R4; reflexivity|].
       split; [eapply ordered_weaken; [|exact Ord]; lia|].
